@@ -1501,6 +1501,392 @@ theorem C17_mint_exactly_when_partial {s s' : State} {op : Op} (h : step s op = 
       rw [hd] at hd'; cases hd'
       exact absurd hf hnf
 
+/-! ### extended operations (`OpX`): Shuffle with a permutation witness, holder transfer / burn in the minter's own collection,
+governance changing the mirrored factory parameters — frames, and the history theorems over `runX` -/
+
+theorem stepX_core (s : State) (op : Op) : stepX s (.core op) = step s op := rfl
+
+theorem stepX'_core (s : State) (op : Op) : stepX' s (.core op) = step' s op := rfl
+
+theorem runX_core (ops : List Op) (s : State) : runX s (ops.map .core) = run s ops := by
+  induction ops generalizing s with
+  | nil => rfl
+  | cons op rest ih =>
+    simp only [List.map_cons, runX, run, List.foldl_cons, stepX'_core]
+    exact ih (step' s op)
+
+/-- which ledger cell an extended operation tries to credit -/
+def depositOfX : OpX → Option (Addr × Addr)
+  | .core op => depositOf op
+  | _ => none
+
+/-- **frame of the four new operations**: none of them touches the deposit ledger, the requirement vector, the start
+time, the clock, the per-address limit, the per-recipient counters, the source collections or the minter's identity -/
+theorem stepX_frame {s s' : State} {op : OpX} (h : stepX s op = .ok s') (hn : ∀ o, op ≠ .core o) :
+    s'.ledger = s.ledger ∧ s'.required = s.required ∧ s'.start = s.start ∧ s'.now = s.now ∧
+    s'.mintCount = s.mintCount ∧ s'.perAddressLimit = s.perAddressLimit ∧ s'.srcOwner = s.srcOwner ∧
+    s'.srcApproved = s.srcApproved ∧ s'.srcOperators = s.srcOperators ∧ s'.srcNum = s.srcNum ∧
+    s'.colls = s.colls ∧ s'.self = s.self ∧ s'.admin = s.admin ∧ s'.numTokens = s.numTokens := by
+  cases op with
+  | core o => exact absurd rfl (hn o)
+  | shuffle w perm =>
+    simp only [stepX] at h
+    repeat' split at h
+    all_goals first | cases h | skip
+    all_goals simp
+  | tgtTransfer caller id to w =>
+    simp only [stepX] at h
+    repeat' split at h
+    all_goals first | cases h | skip
+    all_goals simp
+  | tgtBurn caller id w =>
+    simp only [stepX] at h
+    repeat' split at h
+    all_goals first | cases h | skip
+    all_goals simp
+  | govern maxPer airdrop w =>
+    simp only [stepX] at h
+    repeat' split at h
+    all_goals first | cases h | skip
+    all_goals simp
+
+/-- the same for the transactional step (a failed operation changes nothing anyway) -/
+theorem stepX'_frame (s : State) {op : OpX} (hn : ∀ o, op ≠ .core o) :
+    (stepX' s op).ledger = s.ledger ∧ (stepX' s op).required = s.required ∧ (stepX' s op).start = s.start ∧
+    (stepX' s op).now = s.now ∧ (stepX' s op).mintCount = s.mintCount ∧
+    (stepX' s op).perAddressLimit = s.perAddressLimit := by
+  unfold stepX'
+  cases h : stepX s op with
+  | error e => exact ⟨rfl, rfl, rfl, rfl, rfl, rfl⟩
+  | ok s' =>
+    obtain ⟨h1, h2, h3, h4, h5, h6, _⟩ := stepX_frame h hn
+    exact ⟨h1, h2, h3, h4, h5, h6⟩
+
+/-- `C17_x_frame` — the statement for the record: Shuffle, holder transfers / burns in the minter's collection and
+governance updates leave ledger, requirement vector, start time, limit and every recipient's mint count alone. -/
+theorem C17_x_frame {s s' : State} {op : OpX} (h : stepX s op = .ok s') (hn : ∀ o, op ≠ .core o) :
+    s'.ledger = s.ledger ∧ s'.required = s.required ∧ s'.start = s.start ∧ s'.perAddressLimit = s.perAddressLimit ∧
+    s'.mintCount = s.mintCount := by
+  obtain ⟨h1, h2, h3, _, h5, h6, _⟩ := stepX_frame h hn
+  exact ⟨h1, h2, h3, h6, h5⟩
+
+/-- Shuffle only re-orders: exactly the same ids stay mintable, nothing is minted, burned or credited -/
+theorem C17_x_shuffle_same_ids {s s' : State} {w : Bool} {perm : List Nat} (h : stepX s (.shuffle w perm) = .ok s') :
+    (∀ id, id ∈ s'.mintable ↔ id ∈ s.mintable) ∧ s'.mintable.length = s.mintable.length ∧
+    s'.tgtOwner = s.tgtOwner ∧ s'.tgtNum = s.tgtNum ∧ s'.ledger = s.ledger := by
+  simp only [stepX] at h
+  split at h
+  · cases h
+  · split at h
+    · rename_i hp
+      cases h
+      have hperm := List.isPerm_iff.mp hp
+      exact ⟨fun id => hperm.mem_iff, hperm.length_eq, rfl, rfl, rfl⟩
+    · cases h
+
+/-- `C17_ledger_only_via_deposit` over the extended operations -/
+theorem C17_x_ledger_only_via_deposit {s s' : State} {op : OpX} (h : stepX s op = .ok s') (hnd : depositOfX op = none) :
+    s'.ledger = s.ledger ∧ s'.required = s.required := by
+  cases op with
+  | core o => exact C17_ledger_only_via_deposit (by simpa [stepX] using h) (by simpa [depositOfX] using hnd)
+  | shuffle w perm => exact ⟨(stepX_frame h (by intro o e; cases e)).1, (stepX_frame h (by intro o e; cases e)).2.1⟩
+  | tgtTransfer caller id to w => exact ⟨(stepX_frame h (by intro o e; cases e)).1, (stepX_frame h (by intro o e; cases e)).2.1⟩
+  | tgtBurn caller id w => exact ⟨(stepX_frame h (by intro o e; cases e)).1, (stepX_frame h (by intro o e; cases e)).2.1⟩
+  | govern a b w => exact ⟨(stepX_frame h (by intro o e; cases e)).1, (stepX_frame h (by intro o e; cases e)).2.1⟩
+
+/-- `C17_noise_frame` seen through `stepX` -/
+theorem C17_x_noise_frame {s s' : State} {w : Bool} (h : stepX s (.core (.noise w)) = .ok s') : s' = s :=
+  C17_noise_frame (by simpa [stepX] using h)
+
+/-- invariant lifting over extended histories -/
+theorem runX_induction {P : State → Prop} (hcore : ∀ s op s', P s → step s op = .ok s' → P s')
+    (hx : ∀ s op s', (∀ o, op ≠ .core o) → P s → stepX s op = .ok s' → P s') :
+    ∀ (ops : List OpX) (s : State), P s → P (runX s ops) := by
+  intro ops
+  induction ops with
+  | nil => intro s h; exact h
+  | cons op rest ih =>
+    intro s h
+    simp only [runX, List.foldl_cons]
+    apply ih
+    unfold stepX'
+    cases hs : stepX s op with
+    | error e => exact h
+    | ok s' =>
+      cases op with
+      | core o => exact hcore s o s' h (by simpa [stepX] using hs)
+      | shuffle w perm => exact hx s _ s' (by intro o e; cases e) h hs
+      | tgtTransfer caller id to w => exact hx s _ s' (by intro o e; cases e) h hs
+      | tgtBurn caller id w => exact hx s _ s' (by intro o e; cases e) h hs
+      | govern a b w => exact hx s _ s' (by intro o e; cases e) h hs
+
+theorem runX_required (ops : List OpX) (s : State) : (runX s ops).required = s.required :=
+  runX_induction (P := fun x => x.required = s.required)
+    (fun a op b ha hs => by rw [step_required a op b hs, ha])
+    (fun a op b hn ha hs => by rw [(stepX_frame hs hn).2.1, ha]) ops s rfl
+
+/-- `C17_ledger_bounded` for histories that also contain Shuffle, holder transfers / burns and governance updates -/
+theorem C17_x_ledger_bounded (s0 : State) (h0 : LedgerBounded s0) (ops : List OpX) (r c : Addr) :
+    (runX s0 ops).ledger r c ≤ (requiredOf s0.required c).getD 0 := by
+  have := runX_induction (P := LedgerBounded) step_ledgerBounded
+    (fun a op b hn ha hs => by
+      intro r c
+      rw [(stepX_frame hs hn).1, (stepX_frame hs hn).2.1]; exact ha r c) ops s0 h0 r c
+  rwa [runX_required] at this
+
+/-- `C17_no_pending_mint` for extended histories -/
+theorem C17_x_no_pending_mint (s0 : State) (hpos : ∃ cn ∈ s0.required, 0 < cn.2) (h0 : NoPending s0) (ops : List OpX)
+    (r : Addr) : ¬ ∀ cn ∈ s0.required, cn.2 ≤ (runX s0 ops).ledger r cn.1 := by
+  have key := runX_induction (P := fun x => x.required = s0.required ∧ NoPending x)
+    (fun a op b ha hs => by
+      refine ⟨by rw [step_required a op b hs, ha.1], step_noPending (s := a) ?_ op b ha.2 hs⟩
+      rw [ha.1]; exact hpos)
+    (fun a op b hn ha hs => by
+      obtain ⟨hl, hr, _⟩ := stepX_frame hs hn
+      refine ⟨by rw [hr, ha.1], fun r => ?_⟩
+      rw [hr, hl]; exact ha.2 r) ops s0 ⟨rfl, h0⟩
+  have := key.2 r
+  rw [key.1, allReceived_false_iff] at this
+  exact this
+
+/-! #### the start time over extended histories -/
+
+def clockMonoX : Nat → List OpX → Prop
+  | _, [] => True
+  | now, .core (.setTime t) :: rest => now ≤ t ∧ clockMonoX t rest
+  | now, _ :: rest => clockMonoX now rest
+
+theorem clockMonoX_core (now : Nat) (ops : List Op) : clockMonoX now (ops.map .core) ↔ clockMono now ops := by
+  induction ops generalizing now with
+  | nil => simp [clockMonoX, clockMono]
+  | cons op rest ih =>
+    cases op <;> simp [clockMonoX, clockMono, ih]
+
+theorem stepX'_now (s : State) (op : OpX) :
+    (stepX' s op).now = (match op with | .core (.setTime t) => t | _ => s.now) := by
+  cases op with
+  | core o => rw [stepX'_core, step'_now]; cases o <;> rfl
+  | shuffle w perm => exact (stepX'_frame s (by intro o e; cases e)).2.2.2.1
+  | tgtTransfer caller id to w => exact (stepX'_frame s (by intro o e; cases e)).2.2.2.1
+  | tgtBurn caller id w => exact (stepX'_frame s (by intro o e; cases e)).2.2.2.1
+  | govern a b w => exact (stepX'_frame s (by intro o e; cases e)).2.2.2.1
+
+theorem clockMonoX_cons {now : Nat} {op : OpX} {rest : List OpX} (h : clockMonoX now (op :: rest)) (s : State)
+    (hn : s.now = now) : clockMonoX s.now [op] ∧ clockMonoX (stepX' s op).now rest := by
+  rw [stepX'_now, hn]
+  cases op with
+  | core o => cases o <;> simp_all [clockMonoX]
+  | shuffle w perm => simp_all [clockMonoX]
+  | tgtTransfer caller id to w => simp_all [clockMonoX]
+  | tgtBurn caller id w => simp_all [clockMonoX]
+  | govern a b w => simp_all [clockMonoX]
+
+theorem stepX'_started {s : State} {op : OpX} (hs : Started s) (hm : clockMonoX s.now [op]) :
+    (stepX' s op).start = s.start ∧ Started (stepX' s op) := by
+  cases op with
+  | core o =>
+    rw [stepX'_core]
+    exact step'_started hs ((clockMonoX_core s.now [o]).mp hm)
+  | shuffle w perm =>
+    obtain ⟨_, _, h3, h4, _⟩ := stepX'_frame s (op := .shuffle w perm) (by intro o e; cases e)
+    exact ⟨h3, by unfold Started at *; rw [h3, h4]; exact hs⟩
+  | tgtTransfer caller id to w =>
+    obtain ⟨_, _, h3, h4, _⟩ := stepX'_frame s (op := .tgtTransfer caller id to w) (by intro o e; cases e)
+    exact ⟨h3, by unfold Started at *; rw [h3, h4]; exact hs⟩
+  | tgtBurn caller id w =>
+    obtain ⟨_, _, h3, h4, _⟩ := stepX'_frame s (op := .tgtBurn caller id w) (by intro o e; cases e)
+    exact ⟨h3, by unfold Started at *; rw [h3, h4]; exact hs⟩
+  | govern a b w =>
+    obtain ⟨_, _, h3, h4, _⟩ := stepX'_frame s (op := .govern a b w) (by intro o e; cases e)
+    exact ⟨h3, by unfold Started at *; rw [h3, h4]; exact hs⟩
+
+/-- `C17_start_frozen_once_started` for extended histories -/
+theorem C17_x_start_frozen_once_started (s : State) (hs : s.start < s.now) (ops : List OpX)
+    (hm : clockMonoX s.now ops) : (runX s ops).start = s.start ∧ (runX s ops).start < (runX s ops).now := by
+  induction ops generalizing s with
+  | nil => exact ⟨rfl, hs⟩
+  | cons op rest ih =>
+    obtain ⟨h1, h2⟩ := clockMonoX_cons hm s rfl
+    obtain ⟨hst, hstarted⟩ := stepX'_started (s := s) hs h1
+    simp only [runX, List.foldl_cons]
+    have := ih (stepX' s op) hstarted h2
+    simp only [runX] at this
+    exact ⟨by rw [this.1, hst], this.2⟩
+
+theorem stepX'_creditsAfterStart {s : State} {op : OpX} (hi : CreditsAfterStart s) (hm : clockMonoX s.now [op]) :
+    CreditsAfterStart (stepX' s op) := by
+  cases op with
+  | core o =>
+    rw [stepX'_core]
+    exact step'_creditsAfterStart hi ((clockMonoX_core s.now [o]).mp hm)
+  | shuffle w perm =>
+    obtain ⟨h1, _, h3, h4, _⟩ := stepX'_frame s (op := .shuffle w perm) (by intro o e; cases e)
+    intro ⟨r, c, hp⟩; rw [h1] at hp; have := hi ⟨r, c, hp⟩; unfold Started at *; rw [h3, h4]; exact this
+  | tgtTransfer caller id to w =>
+    obtain ⟨h1, _, h3, h4, _⟩ := stepX'_frame s (op := .tgtTransfer caller id to w) (by intro o e; cases e)
+    intro ⟨r, c, hp⟩; rw [h1] at hp; have := hi ⟨r, c, hp⟩; unfold Started at *; rw [h3, h4]; exact this
+  | tgtBurn caller id w =>
+    obtain ⟨h1, _, h3, h4, _⟩ := stepX'_frame s (op := .tgtBurn caller id w) (by intro o e; cases e)
+    intro ⟨r, c, hp⟩; rw [h1] at hp; have := hi ⟨r, c, hp⟩; unfold Started at *; rw [h3, h4]; exact this
+  | govern a b w =>
+    obtain ⟨h1, _, h3, h4, _⟩ := stepX'_frame s (op := .govern a b w) (by intro o e; cases e)
+    intro ⟨r, c, hp⟩; rw [h1] at hp; have := hi ⟨r, c, hp⟩; unfold Started at *; rw [h3, h4]; exact this
+
+/-- `C17_credit_after_start` for extended histories -/
+theorem C17_x_credit_after_start (s0 : State) (h0 : ∀ r c, s0.ledger r c = 0) (ops : List OpX)
+    (hm : clockMonoX s0.now ops) (r c : Addr) (hpos : 0 < (runX s0 ops).ledger r c) :
+    (runX s0 ops).start < (runX s0 ops).now := by
+  have key : ∀ (ops : List OpX) (s : State), CreditsAfterStart s → clockMonoX s.now ops →
+      CreditsAfterStart (runX s ops) := by
+    intro ops
+    induction ops with
+    | nil => intro s h _; exact h
+    | cons op rest ih =>
+      intro s h hm
+      obtain ⟨h1, h2⟩ := clockMonoX_cons hm s rfl
+      simp only [runX, List.foldl_cons]
+      exact ih (stepX' s op) (stepX'_creditsAfterStart h h1) h2
+  have hi : CreditsAfterStart s0 := by
+    intro ⟨r, c, h⟩; rw [h0] at h; omega
+  exact key ops s0 hi hm ⟨r, c, hpos⟩
+
+/-- `C17_start_frozen_after_first_credit` for extended histories -/
+theorem C17_x_start_frozen_after_first_credit (s0 : State) (h0 : ∀ r c, s0.ledger r c = 0) (ops : List OpX)
+    (hm : clockMonoX s0.now ops) (r c : Addr) (hpos : 0 < (runX s0 ops).ledger r c) (more : List OpX)
+    (hm2 : clockMonoX (runX s0 ops).now more) :
+    (runX (runX s0 ops) more).start = (runX s0 ops).start ∧
+    (runX (runX s0 ops) more).start < (runX (runX s0 ops) more).now :=
+  C17_x_start_frozen_once_started _ (C17_x_credit_after_start s0 h0 ops hm r c hpos) more hm2
+
+/-! #### conservation over extended histories -/
+
+theorem stepG_fst (sg : State × Ghost) (op : Op) : (stepG sg op).1 = step' sg.1 op := by
+  unfold stepG step'
+  cases step sg.1 op with
+  | error e => rfl
+  | ok s' => cases depositOf op <;> rfl
+
+/-- ghost bookkeeping over extended histories: the new operations are no deposits, the ghost does not move -/
+def stepGX (sg : State × Ghost) : OpX → State × Ghost
+  | .core o => stepG sg o
+  | op => (stepX' sg.1 op, sg.2)
+
+def runGX (sg : State × Ghost) (ops : List OpX) : State × Ghost := ops.foldl stepGX sg
+
+theorem stepGX_fst (sg : State × Ghost) (op : OpX) : (stepGX sg op).1 = stepX' sg.1 op := by
+  cases op with
+  | core o => simp only [stepGX, stepG_fst, stepX'_core]
+  | shuffle w perm => rfl
+  | tgtTransfer caller id to w => rfl
+  | tgtBurn caller id w => rfl
+  | govern a b w => rfl
+
+theorem runGX_fst (ops : List OpX) (sg : State × Ghost) : (runGX sg ops).1 = runX sg.1 ops := by
+  induction ops generalizing sg with
+  | nil => rfl
+  | cons op rest ih =>
+    simp only [runGX, runX, List.foldl_cons]
+    have := ih (stepGX sg op)
+    simp only [runGX, runX] at this
+    rw [this, stepGX_fst]
+
+theorem stepGX_conserved (sg : State × Ghost) (op : OpX) (hc : Conserved sg) : Conserved (stepGX sg op) := by
+  have hx : ∀ op : OpX, (∀ o, op ≠ .core o) → Conserved (stepX' sg.1 op, sg.2) := by
+    intro op hn
+    obtain ⟨hl, hr, _⟩ := stepX'_frame sg.1 hn
+    refine ⟨fun r c => ?_, fun r c => ?_⟩
+    · simp only [hl, hr]; exact hc.1 r c
+    · simp only [hl, hr]; exact hc.2 r c
+  cases op with
+  | core o => exact stepG_conserved sg o hc
+  | shuffle w perm => exact hx _ (by intro o e; cases e)
+  | tgtTransfer caller id to w => exact hx _ (by intro o e; cases e)
+  | tgtBurn caller id w => exact hx _ (by intro o e; cases e)
+  | govern a b w => exact hx _ (by intro o e; cases e)
+
+/-- `C17_conservation` for histories that also contain Shuffle, holder transfers / burns in the minter's collection and
+governance updates: burned(r,c) = required(c) × deposit-mints(r) + ledger(r,c). (A holder burning a MINTED token does
+not give any credit back and does not undo the mint count.) -/
+theorem C17_x_conservation (s0 : State) (h0 : ∀ r c, s0.ledger r c = 0) (ops : List OpX) (r c : Addr) :
+    (runGX (s0, ⟨fun _ _ => 0, fun _ => 0⟩) ops).2.credited r c =
+      (requiredOf s0.required c).getD 0 * (runGX (s0, ⟨fun _ _ => 0, fun _ => 0⟩) ops).2.dmints r +
+        (runX s0 ops).ledger r c := by
+  have key : ∀ (ops : List OpX) (sg : State × Ghost), Conserved sg → Conserved (runGX sg ops) := by
+    intro ops
+    induction ops with
+    | nil => intro sg h; exact h
+    | cons op rest ih =>
+      intro sg h
+      simp only [runGX, List.foldl_cons]
+      exact ih _ (stepGX_conserved sg op h)
+  have hc : Conserved (s0, ⟨fun _ _ => 0, fun _ => 0⟩) :=
+    ⟨fun r c => by rw [h0]; exact Nat.zero_le _, fun r c => by simp [h0]⟩
+  have := (key ops _ hc).2 r c
+  rw [runGX_fst] at this
+  simpa [runX_required] using this
+
+/-- who can mint, over the extended operations: a token that did not exist appears in the minter's collection (or its
+token count grows) only through a deposit or the admin's airdrop — a holder's transfer moves an EXISTING token, a
+holder's burn removes one, Shuffle and governance do not touch the collection at all. -/
+theorem C17_x_mint_only_via_deposit_or_admin {s s' : State} {op : OpX} (h : stepX s op = .ok s')
+    (hnew : s.tgtNum < s'.tgtNum ∨ ∃ id, s.tgtOwner id = none ∧ s'.tgtOwner id ≠ none) :
+    ∃ o, op = .core o ∧
+      ((∃ caller coll id contract rcp msgOk picked, o = .send caller coll id contract rcp msgOk picked ∧
+          Fulfilled s (rcp.getD caller) coll) ∨
+       (∃ caller sender id rcp msgOk picked, o = .receive caller sender id rcp msgOk picked ∧ caller ∈ s.colls) ∨
+       (∃ recipient pay picked, o = .mintTo s.admin recipient pay true picked) ∨
+       (∃ id recipient pay, o = .mintFor s.admin id recipient pay true)) := by
+  cases op with
+  | core o =>
+    refine ⟨o, rfl, C17_mint_only_via_deposit_or_admin (by simpa [stepX] using h) ?_⟩
+    rcases hnew with hlt | ⟨id, h1, h2⟩
+    · exact Or.inl (by omega)
+    · refine Or.inr (fun e => ?_)
+      rw [e, h1] at h2; exact h2 rfl
+  | shuffle w perm =>
+    exfalso
+    obtain ⟨_, _, ho, hn, _⟩ := C17_x_shuffle_same_ids h
+    rcases hnew with hlt | ⟨id, h1, h2⟩
+    · omega
+    · rw [ho, h1] at h2; exact h2 rfl
+  | tgtTransfer caller id to w =>
+    exfalso
+    simp only [stepX] at h
+    split at h
+    · cases h
+    · split at h
+      · rename_i hown
+        cases h
+        rcases hnew with hlt | ⟨i, h1, h2⟩
+        · simp at hlt
+        · by_cases e : i = id
+          · subst e; rw [hown] at h1; cases h1
+          · simp [upd1, e, h1] at h2
+      · cases h
+  | tgtBurn caller id w =>
+    exfalso
+    simp only [stepX] at h
+    split at h
+    · cases h
+    · split at h
+      · rename_i hown
+        cases h
+        rcases hnew with hlt | ⟨i, h1, h2⟩
+        · simp at hlt; omega
+        · by_cases e : i = id
+          · subst e; rw [hown] at h1; cases h1
+          · simp [upd1, e, h1] at h2
+      · cases h
+  | govern a b w =>
+    exfalso
+    simp only [stepX] at h
+    split at h
+    · cases h
+    · cases h
+      rcases hnew with hlt | ⟨i, h1, h2⟩
+      · simp at hlt
+      · exact h2 h1
+
 /-! ## non-vacuity: concrete runs on which the hypotheses above are satisfiable -/
 
 namespace C17Examples
@@ -1580,6 +1966,16 @@ example : clockMono s0.now (setup ++ deposits) ∧ 0 < (run s0 (setup ++ deposit
 example : let s := run s0 (setup ++ [.approveAll 20 1004 21 (some 200)])
     (run s [.send 21 1004 1 1010 none true none]).ledger 21 1004 = 1 ∧
     (step (run s [.setTime 200]) (.send 21 1004 1 1010 none true none)).isOk = false := by decide
+
+/-- the extended operations on a concrete run: Shuffle with a genuine permutation is accepted (a non-permutation is
+not), the holder of minted token 2 transfers and then burns it, governance changes the mirrored parameters — the ledger
+of 21 (one credit) is untouched throughout -/
+example : let s := run s0 (setup ++ deposits ++ [.send 20 1004 2 1010 none true (some 2), .give 1002 2 21,
+      .send 21 1002 2 1010 none true none])
+    let s' := runX s [.shuffle true [3, 1], .tgtTransfer 20 2 22 true, .tgtBurn 22 2 true, .govern 7 5 true]
+    s.mintable = [1, 3] ∧ s'.mintable = [3, 1] ∧ (stepX s (.shuffle true [3, 3])).isOk = false ∧
+    s.tgtOwner 2 = some 20 ∧ s'.tgtOwner 2 = none ∧ s'.tgtNum = 0 ∧ s'.maxPerAddressLimit = 7 ∧ s'.airdropPrice = 5 ∧
+    s'.ledger 21 1002 = 1 ∧ s'.mintCount 20 = 1 := by decide
 
 end C17Examples
 
